@@ -991,6 +991,10 @@ func txMutations(r *gen.Rand) []txmut {
 		{"r.inc", func(t *txf) bool { t.r.Add(t.r, big.NewInt(1)); return true }},
 		{"s.inc", func(t *txf) bool { t.s.Add(t.s, big.NewInt(1)); return true }},
 		{"swap.r.s", func(t *txf) bool { t.r, t.s = t.s, t.r; return true }},
+		{"s.plusN", func(t *txf) bool { t.s.Add(t.s, curveN); return true }},       // same scalar modulo N
+		{"r.plusN", func(t *txf) bool { t.r.Add(t.r, curveN); return true }},
+		{"s.plus2^256", func(t *txf) bool { t.s.Add(t.s, new(big.Int).Lsh(big.NewInt(1), 256)); return true }}, // same low 32 bytes
+		{"r.plus2^256", func(t *txf) bool { t.r.Add(t.r, new(big.Int).Lsh(big.NewInt(1), 256)); return true }},
 		{"v.parity", func(t *txf) bool { // 27<->28, 35+2c <-> 36+2c
 			if t.v.Bit(0) == 1 {
 				t.v.Add(t.v, big.NewInt(1))
@@ -1112,6 +1116,9 @@ func caseTx(o *out.Out, r *gen.Rand, c int) {
 		mres, _ := opSD(o, s, mt)
 		if mres == "ok:"+anum(addr) {
 			o.Fail(step, "mutation-accepted", fmt.Sprintf("tx mutation %s still recovers the signer under %s", mu.name, s.tok()))
+		}
+		if strings.Contains(mu.name, ".plus") && mres != "invalidsig" {
+			o.Fail(step, "malformed-values-accepted", fmt.Sprintf("tx mutation %s (value >= N) is not rejected with ErrInvalidSig under %s: %s", mu.name, s.tok(), mres))
 		}
 		shape += mu.name[:1]
 	}
